@@ -88,11 +88,19 @@ type Reader struct {
 	OnRead func(r *Reader)
 	// MaxChunk limits the bytes handed out per Read (0 = no limit).
 	MaxChunk int
+	// Gate, if set, stalls the input: the read of the size prefix that would
+	// begin file block number GateAt (0 = the header block) does not return
+	// before Gate is closed - a reader parked in Read on a stalled stream.
+	Gate   *vsched.Chan[struct{}]
+	GateAt int
 }
 
 func (r *Reader) Read(p []byte) (int, error) {
 	if !r.BlockOnly || len(p) == 4 {
 		vsched.Yield("read")
+	}
+	if r.Gate != nil && len(p) == 4 && r.BlocksBegun == r.GateAt {
+		r.Gate.Recv()
 	}
 	if r.OnRead != nil {
 		r.OnRead(r)
